@@ -53,6 +53,21 @@ for _p in sorted(glob.glob(os.path.join(_here, "reg", "*.py"))):
         import sys as _sys
         _sys.stderr.write("registry: fragment %s failed to load: %r\n" % (_p, _ex))
 
+for _x in HARNESSES + MIR_QUERIES:
+    _x.quick_also = set()
+try:
+    _qa = importlib.util.spec_from_file_location("quick_also", os.path.join(_here, "quick_also.py"))
+    _qam = importlib.util.module_from_spec(_qa)
+    _qa.loader.exec_module(_qam)
+    for _prop, _lst in _qam.QUICK_ALSO.items():
+        for _n in _lst:
+            _hit = [x for x in HARNESSES + MIR_QUERIES if x.name == _n]
+            assert _hit, "quick_also: unknown check " + _n
+            if _prop not in _hit[0].props:
+                _hit[0].props.append(_prop)
+            _hit[0].quick_also.add(_prop)
+except FileNotFoundError:
+    pass
 _names = [h.name for h in HARNESSES]
 for _a in _names:
     for _b in _names:
